@@ -145,6 +145,13 @@ func (c17) Cases(tier string, emit func(string, interface{})) {
 			emit("paramtags", c09Case{Spec: &gen.Spec{Apps: []*gen.App{a}}, Lab: fmt.Sprintf("paramtags-%d", i)})
 		}
 	}
+	// mixins: the types an application takes over from another keep pointing at that application's types
+	for i, t := range []string{
+		"Base:\n    !type Inner:\n        v <: int\n    !type Outer:\n        inner <: Inner\n        many <: sequence of Inner\n        opt <: Inner?\n        other <: Lib.Thing\n    !alias Al:\n        sequence of Inner\nLib:\n    !type Thing:\n        t <: int\nNS :: User:\n    -|> Base\n    !type Own:\n        o <: Outer\n        p <: Inner\n    Ep (q <: Outer):\n        return ok <: Outer\nSecond:\n    -|> Base\n    !type Inner:\n        mine <: string\n",
+		c07Src5,
+	} {
+		emit("mixinrefs", c09Case{Text: t, Lab: fmt.Sprintf("mixinrefs-%d", i)})
+	}
 	for _, p := range ps {
 		a := &gen.App{Name: []string{"A"}, Types: []*gen.TypeDecl{{Kind: "type", Name: "T", Fields: []*gen.Field{{Name: "f", T: gen.TypeExpr{Prim: "int"}}}}}, Eps: []*gen.Endpoint{{Kind: "simple", Name: "Ep", Stmts: []*gen.Stmt{{Kind: "ret", Text: p}}}}}
 		emit("payload1", c09Case{Spec: &gen.Spec{Apps: []*gen.App{a}}, Lab: "payload " + p})
